@@ -1110,6 +1110,10 @@ def history_case(ck, batch, d, nops):
             probe = Ctl()
             with patched(probe):      # dry run into a scratch name to learn the chunk count
                 fs.save_cache(os.path.join(d, "probe.json"))
+            if not os.path.isfile(os.path.join(d, "probe.json")):
+                ck.violation("save-skipped", "save_cache(<file>) returned without writing the cache file",
+                             {"op": "history", "ops": list(ops) + [["save-to-scratch-name"]]})
+                return
             os.remove(os.path.join(d, "probe.json"))
             pt = None if op == "save" else rng.choice(crash_points(len(probe.chunks))[:-1])
             ctl = Ctl(crash=pt)
